@@ -212,8 +212,10 @@ def expr_leaves(e):
     return [e]
 
 
-def build_move(e, cache=None):
-    """Build a move from an expression; leaves carry an 'id' so the same object can be reused."""
+def build_move(e, cache=None, shared=None):
+    """Build a move from an expression; leaves carry an 'id' so the same object can be reused.
+    `cache` is local to one table entry; `shared` (optional) lets displacement leaves with the same id be one
+    object across entries (a move used both inside a composite entry and as an entry of its own)."""
     from quansino.integrators.displacement import Verlet
     from quansino.moves.cell import CellMove
     from quansino.moves.displacement import DisplacementMove, HamiltonianDisplacementMove
@@ -222,11 +224,14 @@ def build_move(e, cache=None):
     cache = {} if cache is None else cache
     t = e["t"]
     if t == "add":
-        return build_move(e["l"], cache) + build_move(e["r"], cache)
+        return build_move(e["l"], cache, shared) + build_move(e["r"], cache, shared)
     if t == "mul":
-        return build_move(e["e"], cache) * e["n"]
+        return build_move(e["e"], cache, shared) * e["n"]
     if "id" in e and e["id"] in cache:
         return cache[e["id"]]
+    if shared is not None and t == "disp" and e.get("id") in shared:
+        cache[e["id"]] = shared[e["id"]]
+        return shared[e["id"]]
     if t == "disp":
         m = DisplacementMove(np.array(e["labels"], dtype=int), build_op(e["op"]))
     elif t == "exch":
@@ -243,6 +248,8 @@ def build_move(e, cache=None):
         m.default_label = e["default_label"]
     if "id" in e:
         cache[e["id"]] = m
+        if shared is not None and t == "disp":
+            shared[e["id"]] = m
     return m
 
 
